@@ -1,13 +1,1569 @@
-//! C19 — stub (to be implemented).
-use crate::engine::*;
-use serde_json::Value as J;
+//! C19 — sandbox allocator accounting.
+//!
+//! Code under test: `rink_sandbox::Alloc` (/repo/sandbox/src/alloc.rs), observed only through
+//! its public surface: the four `GlobalAlloc` methods called on a *private* `Alloc::new(limit)`
+//! instance (never installed as the global allocator), `set_limit`, `reset_max`, `get_max`.
+//!
+//! Three phases:
+//!  * `exhaustive`: every operation sequence of length 0..=L over a boundary alphabet, each run
+//!    in two observation modes, against a reference model (live blocks, used, peak since reset);
+//!  * `random`: long model-based sequences from a proptest strategy;
+//!  * `threads`: barrier-released rounds from 2, 4, 8, 16 threads with only assertions that hold
+//!    under every interleaving for a correct allocator (lower-bound counter argument) plus exact
+//!    checks at quiescent points.
 
-pub fn run(_cx: &Cx) -> Report {
-    let mut rep = Report::new("not implemented");
-    rep.inconclusive = Some("not implemented".into());
+use crate::engine::*;
+use proptest::prelude::*;
+use proptest::strategy::ValueTree;
+use proptest::test_runner::{Config, RngAlgorithm, TestRng, TestRunner};
+use rink_sandbox::Alloc;
+use serde_derive::{Deserialize, Serialize};
+use serde_json::{json, Value as J};
+use std::alloc::{GlobalAlloc, Layout};
+use std::collections::BTreeSet;
+use std::sync::atomic::{AtomicBool, AtomicU64, AtomicUsize, Ordering};
+use std::sync::{Arc, Mutex};
+
+pub const RULE: &str = "cases = (initial limit, observation mode, operation sequence over alloc / alloc_zeroed / \
+realloc(slot) / dealloc(slot) / read_usage (reset_max+get_max) / read_peak (get_max) / set_limit) executed on a private \
+Alloc::new(limit) and on a reference model; exhaustive phase = every sequence of length 0..=L over the boundary size \
+alphabet {1, 64, limit/2, limit-1, limit, limit+1} for limits 4096 and 2^20 and {1, 64, 2^60, isize::MAX-7} for \
+limit usize::MAX (slots = every live block), random phase = sequences of up to 400 operations, thread phase = \
+barrier-released rounds of bursts from 2/4/8/16 threads. Non-trivial sequence = distinct (limit, ops) in which a \
+request is refused after at least one earlier success, or in which a realloc is executed on a live block; non-trivial \
+thread round = distinct (threads, round spec) in a round where at least one request succeeded and at least one was \
+refused.";
+
+pub const SIG_F21: &str = "peak-below-usage-after-realloc";
+
+const ALIGN: usize = 8;
+const HUGE_A: usize = 1 << 60;
+const HUGE_B: usize = (isize::MAX as usize) - 7;
+/// a request of at least this size can only fail in the parent allocator (x86-64 user space is 2^47)
+const PARENT_REFUSES_FROM: usize = 1 << 48;
+/// blocks up to this size are filled and verified completely, larger ones at sampled offsets
+const FULL_FILL: usize = 8192;
+const EDGE: usize = 256;
+const STRIDE: usize = 65536;
+
+// ---------------------------------------------------------------------------
+// cases
+// ---------------------------------------------------------------------------
+
+#[derive(Clone, Debug, Serialize, Deserialize, PartialEq, Eq, Hash)]
+#[serde(tag = "op", rename_all = "snake_case")]
+pub enum Op {
+    Alloc { size: usize },
+    AllocZeroed { size: usize },
+    /// `slot` addresses the min(slot, live-1)-th live block (allocation order); no-op without live blocks
+    Realloc { slot: usize, new_size: usize },
+    Dealloc { slot: usize },
+    /// reset_max(); get_max()  — the only way to read the usage counter
+    ReadUsage,
+    /// get_max()
+    ReadPeak,
+    SetLimit { limit: usize },
+}
+
+#[derive(Clone, Debug, Serialize, Deserialize, PartialEq, Eq, Hash)]
+pub struct Case {
+    pub limit: usize,
+    /// true: after every operation check the peak, then read the usage back (which resets the
+    /// peak); false: after every operation only the side-effect-free `get_max() >= model peak`,
+    /// usage is read back only where the sequence says so and at the end.
+    pub probe_every: bool,
+    pub ops: Vec<Op>,
+}
+
+fn short_op(o: &Op) -> String {
+    match o {
+        Op::Alloc { size } => format!("alloc {}", size),
+        Op::AllocZeroed { size } => format!("alloc_zeroed {}", size),
+        Op::Realloc { slot, new_size } => format!("realloc #{} -> {}", slot, new_size),
+        Op::Dealloc { slot } => format!("dealloc #{}", slot),
+        Op::ReadUsage => "read_usage".into(),
+        Op::ReadPeak => "read_peak".into(),
+        Op::SetLimit { limit } => format!("set_limit {}", limit),
+    }
+}
+
+fn short_case(c: &Case) -> String {
+    let ops: Vec<String> = c.ops.iter().map(short_op).collect();
+    format!("limit {}: {}", c.limit, ops.join("; "))
+}
+
+// ---------------------------------------------------------------------------
+// block contents
+// ---------------------------------------------------------------------------
+
+#[inline]
+fn pat(seed: u8, i: usize) -> u8 {
+    (seed as usize)
+        .wrapping_add(i.wrapping_mul(131))
+        .wrapping_add(i >> 8) as u8
+}
+
+/// visit the checked offsets of a block of `size` bytes that are < cap
+#[inline]
+fn positions(size: usize, cap: usize, mut f: impl FnMut(usize) -> bool) -> bool {
+    let cap = cap.min(size);
+    if size <= FULL_FILL {
+        for i in 0..cap {
+            if !f(i) {
+                return false;
+            }
+        }
+        return true;
+    }
+    for i in 0..EDGE.min(cap) {
+        if !f(i) {
+            return false;
+        }
+    }
+    let mut i = STRIDE;
+    while i < cap && i < size - EDGE {
+        if !f(i) {
+            return false;
+        }
+        i += STRIDE;
+    }
+    for i in (size - EDGE)..size {
+        if i < cap && !f(i) {
+            return false;
+        }
+    }
+    true
+}
+
+unsafe fn fill(p: *mut u8, size: usize, seed: u8) {
+    positions(size, size, |i| {
+        *p.add(i) = pat(seed, i);
+        true
+    });
+}
+
+/// the first `cap` bytes of a block that was filled as a block of `size` bytes still hold the pattern
+unsafe fn intact(p: *const u8, size: usize, cap: usize, seed: u8) -> bool {
+    positions(size, cap, |i| *p.add(i) == pat(seed, i))
+}
+
+unsafe fn all_zero(p: *const u8, size: usize) -> bool {
+    positions(size, size, |i| *p.add(i) == 0)
+}
+
+
+// ---------------------------------------------------------------------------
+// cheap class counters (Stats::class allocates a String per call; the exhaustive phase executes
+// billions of operations), flushed into Stats per case (random phase) or per worker (exhaustive)
+// ---------------------------------------------------------------------------
+
+macro_rules! counters {
+    ($($id:ident => $name:expr),* $(,)?) => {
+        #[allow(non_camel_case_types, dead_code)]
+        #[derive(Clone, Copy)]
+        #[repr(usize)]
+        enum K { $($id),*, N_ }
+        const NAMES: [&str; K::N_ as usize] = [$($name),*];
+    };
+}
+
+counters! {
+    AllocOk => "alloc_ok",
+    AllocRefused => "alloc_refused",
+    ZeroedOk => "alloc_zeroed_ok",
+    ZeroedRefused => "alloc_zeroed_refused",
+    ParentFailAlloc => "parent_allocator_failure(alloc within limit, system allocator refused)",
+    AllocRefusedFits => "alloc_refused_though_it_fits(allowed: property is one-directional)",
+    HugeServed => "huge_request_unexpectedly_served(not tracked)",
+    SlotNoop => "slot_op_without_live_block(no-op)",
+    ReallocRefused => "realloc_refused",
+    ParentFailRealloc => "parent_allocator_failure(realloc within limit, system allocator refused)",
+    ReallocRefusedFits => "realloc_refused_though_result_fits(stricter old+new<=limit test; allowed)",
+    ReallocUp => "realloc_up_ok",
+    ReallocDown => "realloc_down_ok",
+    ReallocSame => "realloc_same_ok",
+    Dealloc => "dealloc",
+    ReadUsage => "read_usage",
+    ReadPeak => "read_peak",
+    SetLimit => "set_limit",
+    SetLimitBelow => "set_limit_below_usage",
+    SeqSuccess => "seq_with_success",
+    SeqRefusal => "seq_with_refusal",
+    SeqRefAfterSucc => "seq_refusal_after_success",
+    SeqRealloc => "seq_with_realloc",
+    OpsOk => "ops_succeeded",
+    OpsRefused => "ops_refused",
+    ExhSeq => "exhaustive_sequences(distinct by construction)",
+    ExhNt => "exhaustive_nontrivial_sequences(distinct by construction)",
+    Violating => "violating_sequences",
+    BadLayout => "size is not a valid Layout (> isize::MAX after rounding): op skipped",
+}
+
+pub struct Ctr([u64; K::N_ as usize]);
+
+impl Ctr {
+    pub fn new() -> Ctr {
+        Ctr([0; K::N_ as usize])
+    }
+    #[inline]
+    fn add(&mut self, k: K) {
+        self.0[k as usize] += 1;
+    }
+    #[inline]
+    fn add_n(&mut self, k: K, n: u64) {
+        self.0[k as usize] += n;
+    }
+    pub fn flush(&mut self, st: &mut Stats) {
+        for (i, c) in self.0.iter_mut().enumerate() {
+            if *c > 0 && !st.frozen {
+                if i == K::BadLayout as usize {
+                    *st.excluded.entry(NAMES[i].to_string()).or_insert(0) += *c;
+                } else {
+                    st.class_n(NAMES[i], *c);
+                }
+            }
+            *c = 0;
+        }
+    }
+}
+
+// ---------------------------------------------------------------------------
+// interpreter + reference model
+// ---------------------------------------------------------------------------
+
+struct Block {
+    ptr: *mut u8,
+    size: usize,
+    seed: u8,
+}
+
+#[derive(Clone, Copy, PartialEq, Eq, Debug)]
+enum PeakSrc {
+    Reset,
+    Alloc,
+    Realloc,
+}
+
+struct Fail {
+    sig: &'static str,
+    detail: String,
+}
+
+#[derive(Default, Clone, Debug)]
+pub struct Outcome {
+    pub live: usize,
+    pub successes: u64,
+    pub refusals: u64,
+    pub refusal_after_success: bool,
+    pub reallocs: u64,
+}
+
+struct Machine {
+    a: Alloc,
+    live: Vec<Block>,
+    // reference model
+    used: usize,
+    limit: usize,
+    /// largest model usage since the last reset_max
+    peak: usize,
+    /// what `max` holds if only alloc/alloc_zeroed/reset_max ever update it (shape of F-21)
+    peak_noreal: usize,
+    peak_src: PeakSrc,
+    next_seed: u8,
+}
+
+impl Drop for Machine {
+    fn drop(&mut self) {
+        for b in self.live.drain(..) {
+            unsafe { self.a.dealloc(b.ptr, Layout::from_size_align_unchecked(b.size, ALIGN)) }
+        }
+    }
+}
+
+fn layout(size: usize) -> Option<Layout> {
+    Layout::from_size_align(size.max(1), ALIGN).ok()
+}
+
+impl Machine {
+    fn new(limit: usize) -> Machine {
+        Machine {
+            a: Alloc::new(limit),
+            live: vec![],
+            used: 0,
+            limit,
+            peak: 0,
+            peak_noreal: 0,
+            peak_src: PeakSrc::Reset,
+            next_seed: 1,
+        }
+    }
+
+    fn seed(&mut self) -> u8 {
+        self.next_seed = self.next_seed.wrapping_mul(5).wrapping_add(17);
+        self.next_seed
+    }
+
+    fn raise_peak(&mut self, src: PeakSrc) {
+        if self.used > self.peak {
+            self.peak = self.used;
+            self.peak_src = src;
+        }
+        if src == PeakSrc::Alloc && self.used > self.peak_noreal {
+            self.peak_noreal = self.used;
+        }
+    }
+
+    fn check_peak(&self) -> Result<(), Fail> {
+        let got = self.a.get_max();
+        if got >= self.peak {
+            return Ok(());
+        }
+        let detail = format!(
+            "get_max() = {} but the usage reached {} since the last reset_max() (peak established by {:?}; \
+             peak counting only allocs/resets would be {})",
+            got, self.peak, self.peak_src, self.peak_noreal
+        );
+        if self.peak_src == PeakSrc::Realloc && got >= self.peak_noreal {
+            Err(Fail { sig: SIG_F21, detail })
+        } else {
+            Err(Fail {
+                sig: "peak-below-model",
+                detail,
+            })
+        }
+    }
+
+    fn check_usage(&mut self, why: &str) -> Result<(), Fail> {
+        self.a.reset_max();
+        let got = self.a.get_max();
+        self.peak = self.used;
+        self.peak_noreal = self.used;
+        self.peak_src = PeakSrc::Reset;
+        if got != self.used {
+            return Err(Fail {
+                sig: "usage-mismatch",
+                detail: format!(
+                    "{}: tracked usage read back as {} but live allocations total {} ({} blocks)",
+                    why,
+                    got,
+                    self.used,
+                    self.live.len()
+                ),
+            });
+        }
+        Ok(())
+    }
+
+    fn slot(&self, slot: usize) -> Option<usize> {
+        if self.live.is_empty() {
+            None
+        } else {
+            Some(slot.min(self.live.len() - 1))
+        }
+    }
+
+    /// apply one operation; statistics go to `st`, counters to `out`
+    fn step(&mut self, op: &Op, ct: &mut Ctr, out: &mut Outcome) -> Result<(), Fail> {
+        match *op {
+            Op::Alloc { size } | Op::AllocZeroed { size } => {
+                let zeroed = matches!(op, Op::AllocZeroed { .. });
+                let size = size.max(1);
+                let l = match layout(size) {
+                    Some(l) => l,
+                    None => {
+                        ct.add(K::BadLayout);
+                        return Ok(());
+                    }
+                };
+                let fits = self.used.checked_add(size).map(|u| u <= self.limit).unwrap_or(false);
+                let p = unsafe {
+                    if zeroed {
+                        self.a.alloc_zeroed(l)
+                    } else {
+                        self.a.alloc(l)
+                    }
+                };
+                if p.is_null() {
+                    out.refusals += 1;
+                    if out.successes > 0 {
+                        out.refusal_after_success = true;
+                    }
+                    ct.add(if zeroed { K::ZeroedRefused } else { K::AllocRefused });
+                    if fits {
+                        if size >= PARENT_REFUSES_FROM {
+                            ct.add(K::ParentFailAlloc);
+                        } else {
+                            ct.add(K::AllocRefusedFits);
+                        }
+                    }
+                    return Ok(());
+                }
+                if size >= PARENT_REFUSES_FROM {
+                    // cannot happen on x86-64; do not touch or keep such a block
+                    unsafe { self.a.dealloc(p, l) };
+                    ct.add(K::HugeServed);
+                    return Ok(());
+                }
+                // from here on the block is tracked (and freed by Drop)
+                let seed = self.seed();
+                self.live.push(Block { ptr: p, size, seed });
+                self.used += size;
+                self.raise_peak(PeakSrc::Alloc);
+                out.successes += 1;
+                ct.add(if zeroed { K::ZeroedOk } else { K::AllocOk });
+                if !fits {
+                    return Err(Fail {
+                        sig: "success-over-limit",
+                        detail: format!(
+                            "{} of {} bytes succeeded although usage {} + {} exceeds the limit {}",
+                            if zeroed { "alloc_zeroed" } else { "alloc" },
+                            size,
+                            self.used - size,
+                            size,
+                            self.limit
+                        ),
+                    });
+                }
+                if (p as usize) % ALIGN != 0 {
+                    return Err(Fail {
+                        sig: "misaligned-block",
+                        detail: format!("block {:p} is not aligned to {}", p, ALIGN),
+                    });
+                }
+                if zeroed && !unsafe { all_zero(p, size) } {
+                    return Err(Fail {
+                        sig: "zeroed-not-zero",
+                        detail: format!("alloc_zeroed({}) returned memory that is not all zero", size),
+                    });
+                }
+                unsafe { fill(p, size, seed) };
+                Ok(())
+            }
+            Op::Realloc { slot, new_size } => {
+                let i = match self.slot(slot) {
+                    Some(i) => i,
+                    None => {
+                        ct.add(K::SlotNoop);
+                        return Ok(());
+                    }
+                };
+                let new_size = new_size.max(1);
+                if layout(new_size).is_none() {
+                    ct.add(K::BadLayout);
+                    return Ok(());
+                }
+                let (old_ptr, old_size, seed) = (self.live[i].ptr, self.live[i].size, self.live[i].seed);
+                if !unsafe { intact(old_ptr, old_size, old_size, seed) } {
+                    return Err(Fail {
+                        sig: "block-contents-changed",
+                        detail: format!("live block #{} ({} bytes) lost its fill pattern before realloc", i, old_size),
+                    });
+                }
+                out.reallocs += 1;
+                let after = (self.used - old_size).checked_add(new_size);
+                let fits = after.map(|u| u <= self.limit).unwrap_or(false);
+                let old_layout = unsafe { Layout::from_size_align_unchecked(old_size, ALIGN) };
+                let q = unsafe { self.a.realloc(old_ptr, old_layout, new_size) };
+                if q.is_null() {
+                    out.refusals += 1;
+                    if out.successes > 0 {
+                        out.refusal_after_success = true;
+                    }
+                    ct.add(K::ReallocRefused);
+                    if fits {
+                        if new_size >= PARENT_REFUSES_FROM {
+                            ct.add(K::ParentFailRealloc);
+                        } else {
+                            ct.add(K::ReallocRefusedFits);
+                        }
+                    }
+                    if !unsafe { intact(old_ptr, old_size, old_size, seed) } {
+                        return Err(Fail {
+                            sig: "refusal-clobbered-block",
+                            detail: format!(
+                                "realloc {} -> {} was refused but the original block no longer holds its contents",
+                                old_size, new_size
+                            ),
+                        });
+                    }
+                    return Ok(());
+                }
+                if new_size >= PARENT_REFUSES_FROM {
+                    // cannot happen; keep the books straight without touching the tail
+                    self.live[i].ptr = q;
+                    self.live[i].size = new_size;
+                    self.used = after.unwrap_or(usize::MAX);
+                    ct.add(K::HugeServed);
+                    return Ok(());
+                }
+                self.live[i].ptr = q;
+                self.live[i].size = new_size;
+                self.used = self.used - old_size + new_size;
+                self.raise_peak(PeakSrc::Realloc);
+                out.successes += 1;
+                ct.add(if new_size > old_size {
+                    K::ReallocUp
+                } else if new_size < old_size {
+                    K::ReallocDown
+                } else {
+                    K::ReallocSame
+                });
+                let kept = old_size.min(new_size);
+                let kept_ok = unsafe { intact(q, old_size, kept, seed) };
+                unsafe { fill(q, new_size, seed) };
+                if !fits {
+                    return Err(Fail {
+                        sig: "success-over-limit",
+                        detail: format!(
+                            "realloc {} -> {} succeeded although the resulting usage {} exceeds the limit {}",
+                            old_size, new_size, self.used, self.limit
+                        ),
+                    });
+                }
+                if (q as usize) % ALIGN != 0 {
+                    return Err(Fail {
+                        sig: "misaligned-block",
+                        detail: format!("block {:p} is not aligned to {}", q, ALIGN),
+                    });
+                }
+                if !kept_ok {
+                    return Err(Fail {
+                        sig: "realloc-lost-contents",
+                        detail: format!(
+                            "realloc {} -> {}: the first {} bytes were not preserved",
+                            old_size, new_size, kept
+                        ),
+                    });
+                }
+                Ok(())
+            }
+            Op::Dealloc { slot } => {
+                let i = match self.slot(slot) {
+                    Some(i) => i,
+                    None => {
+                        ct.add(K::SlotNoop);
+                        return Ok(());
+                    }
+                };
+                let b = self.live.remove(i);
+                let ok = unsafe { intact(b.ptr, b.size, b.size, b.seed) };
+                unsafe { self.a.dealloc(b.ptr, Layout::from_size_align_unchecked(b.size, ALIGN)) };
+                self.used -= b.size;
+                ct.add(K::Dealloc);
+                if !ok {
+                    return Err(Fail {
+                        sig: "block-contents-changed",
+                        detail: format!("live block #{} ({} bytes) lost its fill pattern before dealloc", i, b.size),
+                    });
+                }
+                Ok(())
+            }
+            Op::ReadUsage => {
+                ct.add(K::ReadUsage);
+                self.check_usage("read_usage")
+            }
+            Op::ReadPeak => {
+                ct.add(K::ReadPeak);
+                self.check_peak()
+            }
+            Op::SetLimit { limit } => {
+                self.a.set_limit(limit);
+                self.limit = limit;
+                ct.add(if limit < self.used { K::SetLimitBelow } else { K::SetLimit });
+                Ok(())
+            }
+        }
+    }
+}
+
+pub struct Env {
+    pub known: BTreeSet<String>,
+}
+
+thread_local! {
+    /// shortest example of the known finding seen by this thread (length, text)
+    static TL_BEST: std::cell::RefCell<Option<(usize, String)>> = std::cell::RefCell::new(None);
+}
+static BEST_KNOWN: Mutex<Option<(usize, String)>> = Mutex::new(None);
+
+fn note_known_example(case: &Case, upto: usize) {
+    let len = (upto + 1).min(case.ops.len());
+    let better = TL_BEST.with(|b| match &*b.borrow() {
+        Some((l, _)) => len < *l,
+        None => true,
+    });
+    if !better {
+        return;
+    }
+    let text = short_case(&Case {
+        ops: case.ops[..len].to_vec(),
+        ..case.clone()
+    });
+    TL_BEST.with(|b| *b.borrow_mut() = Some((len, text.clone())));
+    let mut g = BEST_KNOWN.lock().unwrap();
+    let replace = match &*g {
+        Some((l, t)) => (len, text.len(), &text) < (*l, t.len(), t),
+        None => true,
+    };
+    if replace {
+        *g = Some((len, text));
+    }
+}
+
+/// Execute one case with all checks. Ok(outcome) also when only listed known findings were seen.
+pub fn run_case(env: &Env, case: &Case, st: &mut Stats, ct: &mut Ctr) -> Result<Outcome, String> {
+    let mut m = Machine::new(case.limit);
+    let mut out = Outcome::default();
+    let mut known_seen = false;
+    st.eval();
+    // a failure is either a listed known finding (recorded once per case, execution goes on) or a violation
+    macro_rules! settle {
+        ($r:expr, $i:expr, $what:expr) => {
+            if let Err(f) = $r {
+                if env.known.contains(f.sig) {
+                    if !known_seen {
+                        known_seen = true;
+                        if st.known.contains_key(f.sig) {
+                            st.known(f.sig, "");
+                        } else {
+                            st.known(f.sig, &short_case(case));
+                        }
+                        note_known_example(case, $i);
+                    }
+                } else {
+                    return Err(format!(
+                        "[{}] {} (op #{} {}; mode {}): {}",
+                        f.sig,
+                        short_case(case),
+                        $i,
+                        $what,
+                        if case.probe_every { "probe-every-op" } else { "explicit-reads" },
+                        f.detail
+                    ));
+                }
+            }
+        };
+    }
+    for (i, op) in case.ops.iter().enumerate() {
+        let r = m.step(op, ct, &mut out);
+        settle!(r, i, short_op(op));
+        // after every operation
+        let r = m.check_peak();
+        settle!(r, i, format!("{} / peak check after it", short_op(op)));
+        if case.probe_every {
+            let r = m.check_usage("after the operation");
+            settle!(r, i, format!("{} / usage read-back after it", short_op(op)));
+        }
+    }
+    out.live = m.live.len();
+    let n = case.ops.len();
+    let r = m.check_usage("at the end of the sequence");
+    settle!(r, n, "end / usage read-back".to_string());
+    // free everything: usage must return to 0 and every block must still hold its contents
+    while let Some(b) = m.live.pop() {
+        let ok = unsafe { intact(b.ptr, b.size, b.size, b.seed) };
+        unsafe { m.a.dealloc(b.ptr, Layout::from_size_align_unchecked(b.size, ALIGN)) };
+        m.used -= b.size;
+        if !ok {
+            let r: Result<(), Fail> = Err(Fail {
+                sig: "block-contents-changed",
+                detail: format!("a live block of {} bytes lost its fill pattern", b.size),
+            });
+            settle!(r, n, "end / final free".to_string());
+        }
+    }
+    let r = m.check_usage("after freeing every block");
+    settle!(r, n, "end / usage after freeing everything".to_string());
+
+    // coverage bookkeeping
+    if out.successes > 0 {
+        ct.add(K::SeqSuccess);
+    }
+    if out.refusals > 0 {
+        ct.add(K::SeqRefusal);
+    }
+    ct.add_n(K::OpsOk, out.successes);
+    ct.add_n(K::OpsRefused, out.refusals);
+    if out.refusal_after_success {
+        ct.add(K::SeqRefAfterSucc);
+    }
+    if out.reallocs > 0 {
+        ct.add(K::SeqRealloc);
+    }
+    if is_nontrivial(&out) {
+        st.nt_sample(|| serde_json::to_value(case).unwrap());
+    } else {
+        st.sample(|| serde_json::to_value(case).unwrap());
+    }
+    let _ = known_seen;
+    Ok(out)
+}
+
+fn is_nontrivial(o: &Outcome) -> bool {
+    o.refusal_after_success || o.reallocs > 0
+}
+
+// ---------------------------------------------------------------------------
+// phase (a): bounded-exhaustive
+// ---------------------------------------------------------------------------
+
+#[derive(Clone, Debug)]
+struct Cfg {
+    limit: usize,
+    sizes: Vec<usize>,
+    limits: Vec<usize>,
+    depth: usize,
+}
+
+fn configs(tier: Tier) -> Vec<Cfg> {
+    let mut v = vec![];
+    for (limit, depth) in [
+        (4096usize, tier.pick(4usize, 6)),
+        (1usize << 20, tier.pick(4usize, 5)),
+    ] {
+        v.push(Cfg {
+            limit,
+            sizes: vec![1, 64, limit / 2, limit - 1, limit, limit + 1],
+            limits: vec![64, limit + 1],
+            depth,
+        });
+    }
+    v.push(Cfg {
+        limit: usize::MAX,
+        sizes: vec![1, 64, HUGE_A, HUGE_B],
+        limits: vec![64, usize::MAX],
+        depth: tier.pick(4usize, 5),
+    });
+    v
+}
+
+fn alphabet(cfg: &Cfg, live: usize) -> Vec<Op> {
+    let mut v = vec![];
+    for &size in &cfg.sizes {
+        v.push(Op::Alloc { size });
+    }
+    for &size in &cfg.sizes {
+        v.push(Op::AllocZeroed { size });
+    }
+    for slot in 0..live {
+        for &new_size in &cfg.sizes {
+            v.push(Op::Realloc { slot, new_size });
+        }
+    }
+    for slot in 0..live {
+        v.push(Op::Dealloc { slot });
+    }
+    v.push(Op::ReadUsage);
+    v.push(Op::ReadPeak);
+    for &limit in &cfg.limits {
+        v.push(Op::SetLimit { limit });
+    }
+    v
+}
+
+/// cap on hash-set entries per shard; beyond it non-trivial sequences are only counted in a class
+const NT_CAP: usize = 200_000;
+
+struct Dfs<'a> {
+    env: &'a Env,
+    cfg: &'a Cfg,
+    st: &'a mut Stats,
+    ct: &'a mut Ctr,
+    viols: &'a mut Vec<Violation>,
+    nt_recorded: usize,
+}
+
+impl<'a> Dfs<'a> {
+    /// run `ops` in both modes; returns the number of live blocks at the end of the sequence
+    fn eval(&mut self, ops: &[Op]) -> Option<usize> {
+        let mut live = None;
+        for probe_every in [false, true] {
+            let case = Case {
+                limit: self.cfg.limit,
+                probe_every,
+                ops: ops.to_vec(),
+            };
+            match run_case(self.env, &case, self.st, self.ct) {
+                Ok(o) => {
+                    if !probe_every {
+                        self.ct.add(K::ExhSeq);
+                        if is_nontrivial(&o) {
+                            self.ct.add(K::ExhNt);
+                            if self.nt_recorded < NT_CAP {
+                                self.nt_recorded += 1;
+                                self.st.nontrivial(&(case.limit, &case.ops));
+                            }
+                        }
+                    }
+                    live = Some(o.live);
+                }
+                Err(detail) => {
+                    self.ct.add(K::Violating);
+                    // keep the three shortest failing sequences of this worker
+                    let v = Violation {
+                        phase: "sequence".into(),
+                        case: serde_json::to_value(&case).unwrap(),
+                        detail,
+                    };
+                    let len_of = |v: &Violation| v.case["ops"].as_array().map(|a| a.len()).unwrap_or(0);
+                    if self.viols.len() < 3 {
+                        self.viols.push(v);
+                    } else if let Some(worst) = (0..self.viols.len()).max_by_key(|i| len_of(&self.viols[*i])) {
+                        if len_of(&v) < len_of(&self.viols[worst]) {
+                            self.viols[worst] = v;
+                        }
+                    }
+                    return None; // do not extend a failing sequence
+                }
+            }
+        }
+        live
+    }
+
+    fn go(&mut self, ops: &mut Vec<Op>) {
+        let live = match self.eval(ops) {
+            Some(l) => l,
+            None => return,
+        };
+        if ops.len() >= self.cfg.depth {
+            return;
+        }
+        for op in alphabet(self.cfg, live) {
+            ops.push(op);
+            self.go(ops);
+            ops.pop();
+        }
+    }
+}
+
+/// sequences of length 0 and 1 are evaluated here; the length-2 sequences are returned as work items
+fn prefixes(env: &Env, cfg: &Cfg, st: &mut Stats, viols: &mut Vec<Violation>) -> Vec<Vec<Op>> {
+    let mut ct = Ctr::new();
+    let items = prefixes_inner(env, cfg, st, &mut ct, viols);
+    ct.flush(st);
+    items
+}
+
+fn prefixes_inner(env: &Env, cfg: &Cfg, st: &mut Stats, ct: &mut Ctr, viols: &mut Vec<Violation>) -> Vec<Vec<Op>> {
+    let mut items = vec![];
+    let mut d = Dfs {
+        env,
+        cfg,
+        st,
+        ct,
+        viols,
+        nt_recorded: 0,
+    };
+    let live0 = match d.eval(&[]) {
+        Some(l) => l,
+        None => return items,
+    };
+    if cfg.depth == 0 {
+        return items;
+    }
+    for op in alphabet(cfg, live0) {
+        let seq = vec![op];
+        if let Some(l1) = d.eval(&seq) {
+            if cfg.depth >= 2 {
+                for op2 in alphabet(cfg, l1) {
+                    let mut s = seq.clone();
+                    s.push(op2);
+                    items.push(s);
+                }
+            }
+        }
+    }
+    items
+}
+
+fn exhaustive(cx: &Cx, rep: &mut Report) {
+    let env = Env { known: cx.known.clone() };
+    for cfg in configs(cx.tier) {
+        let mut st0 = Stats::new();
+        let mut v0 = vec![];
+        let items = prefixes(&env, &cfg, &mut st0, &mut v0);
+        rep.absorb((st0, v0));
+        let items = Arc::new(items);
+        let known = cx.known.clone();
+        let cfg2 = cfg.clone();
+        let results = par_shards(cx.threads.max(1), move |i, n| {
+            let env = Env { known: known.clone() };
+            let mut st = Stats::new();
+            let mut viols = vec![];
+            let mut ct = Ctr::new();
+            {
+                let mut d = Dfs {
+                    env: &env,
+                    cfg: &cfg2,
+                    st: &mut st,
+                    ct: &mut ct,
+                    viols: &mut viols,
+                    nt_recorded: 0,
+                };
+                let mut idx = i;
+                while idx < items.len() {
+                    let mut ops = items[idx].clone();
+                    d.go(&mut ops);
+                    idx += n;
+                }
+            }
+            ct.flush(&mut st);
+            (st, viols)
+        });
+        for r in results {
+            rep.absorb(r);
+        }
+        let label = if cfg.limit == usize::MAX {
+            "usize::MAX".to_string()
+        } else {
+            cfg.limit.to_string()
+        };
+        rep.stats
+            .note(&format!("exhaustive_depth_limit_{}", label), json!(cfg.depth));
+    }
+}
+
+// ---------------------------------------------------------------------------
+// phase (b): random sequences
+// ---------------------------------------------------------------------------
+
+fn size_strategy(limit: usize) -> BoxedStrategy<usize> {
+    if limit == usize::MAX {
+        return prop_oneof![
+            6 => 1usize..=4096,
+            1 => prop::sample::select(vec![PARENT_REFUSES_FROM, HUGE_A, HUGE_B, HUGE_B + 1]),
+        ]
+        .boxed();
+    }
+    prop_oneof![
+        3 => prop::sample::select(vec![1, 64, limit / 2, limit - 1, limit, limit + 1]),
+        3 => 1usize..=128,
+        4 => (limit / 16)..=(limit / 3),
+        1 => 1usize..=(limit + 1),
+    ]
+    .boxed()
+}
+
+fn op_strategy(limit: usize) -> BoxedStrategy<Op> {
+    let sz = size_strategy(limit);
+    let limits = if limit == usize::MAX {
+        vec![usize::MAX, usize::MAX, 64, 1 << 20]
+    } else {
+        vec![limit, limit, limit * 2, limit + 1, limit / 2, 64]
+    };
+    prop_oneof![
+        8 => sz.clone().prop_map(|size| Op::Alloc { size }),
+        4 => sz.clone().prop_map(|size| Op::AllocZeroed { size }),
+        8 => (0usize..24, sz).prop_map(|(slot, new_size)| Op::Realloc { slot, new_size }),
+        6 => (0usize..24).prop_map(|slot| Op::Dealloc { slot }),
+        2 => Just(Op::ReadUsage),
+        4 => Just(Op::ReadPeak),
+        1 => prop::sample::select(limits).prop_map(|limit| Op::SetLimit { limit }),
+    ]
+    .boxed()
+}
+
+fn case_strategy() -> BoxedStrategy<Case> {
+    (
+        prop_oneof![4 => Just(4096usize), 3 => Just(1usize << 20), 1 => Just(usize::MAX)],
+        any::<bool>(),
+    )
+        .prop_flat_map(|(limit, probe_every)| {
+            prop::collection::vec(op_strategy(limit), 0..400).prop_map(move |ops| Case {
+                limit,
+                probe_every,
+                ops,
+            })
+        })
+        .boxed()
+}
+
+fn check_random(env: &Env, case: &Case, st: &mut Stats) -> CaseResult {
+    let mut ct = Ctr::new();
+    let o = run_case(env, case, st, &mut ct)?;
+    ct.flush(st);
+    if is_nontrivial(&o) {
+        st.nontrivial(&(case.limit, &case.ops));
+    }
+    st.class(match case.limit {
+        usize::MAX => "random_case_limit_usize_max",
+        4096 => "random_case_limit_4096",
+        _ => "random_case_limit_1MiB",
+    });
+    Ok(())
+}
+
+// ---------------------------------------------------------------------------
+// phase (c): threads
+// ---------------------------------------------------------------------------
+
+const T_LIMIT: usize = 1 << 16;
+const BURST: usize = 8;
+const TAG: usize = 64;
+
+#[derive(Clone, Debug, Serialize, Deserialize, PartialEq, Eq, Hash)]
+pub struct RoundSpec {
+    /// request size per thread
+    pub sizes: Vec<usize>,
+    /// per thread: 0 alloc, 1 alloc_zeroed, 2 alloc then realloc to 2x, 3 alloc then realloc to 1/2
+    pub kinds: Vec<u8>,
+    /// true: every thread keeps its blocks until all threads are done (quiescent point with live
+    /// blocks); false: every block is freed right after it was obtained (alloc/free churn)
+    pub hold: bool,
+}
+
+fn round_strategy(t: usize) -> BoxedStrategy<RoundSpec> {
+    let total = t * BURST;
+    (
+        prop_oneof![2 => 1usize..=4, 3 => 1usize..t.max(2), 3 => 1usize..total],
+        prop::collection::vec((0usize..3, prop_oneof![4 => Just(0u8), 2 => Just(1u8), 1 => Just(2u8), 1 => Just(3u8)]), t),
+        prop::bool::weighted(0.6),
+    )
+        .prop_map(|(m, per, hold)| RoundSpec {
+            sizes: per
+                .iter()
+                .map(|(j, _)| match j {
+                    0 => (T_LIMIT / m).max(1),
+                    1 => (T_LIMIT / m + 1).min(T_LIMIT + 1),
+                    _ => (T_LIMIT / (m + 1)).max(1),
+                })
+                .collect(),
+            kinds: per.iter().map(|(_, k)| *k).collect(),
+            hold,
+        })
+        .boxed()
+}
+
+fn make_plan(seed: u64, t: usize, n: usize) -> Vec<RoundSpec> {
+    let rng = TestRng::from_seed(RngAlgorithm::ChaCha, &mix_seed(seed, "C19", "threads", t as u64));
+    let mut runner = TestRunner::new_with_rng(Config::default(), rng);
+    let strat = round_strategy(t);
+    (0..n)
+        .map(|_| strat.new_tree(&mut runner).expect("round spec").current())
+        .collect()
+}
+
+/// Generation barrier: spins briefly for a tight release, then blocks on a condvar so that an
+/// oversubscribed machine does not turn the wait into a yield storm.
+struct SpinBarrier {
+    n: usize,
+    count: AtomicUsize,
+    gen: AtomicUsize,
+    abort: AtomicBool,
+    m: Mutex<()>,
+    cv: std::sync::Condvar,
+}
+
+impl SpinBarrier {
+    fn new(n: usize) -> SpinBarrier {
+        SpinBarrier {
+            n,
+            count: AtomicUsize::new(0),
+            gen: AtomicUsize::new(0),
+            abort: AtomicBool::new(false),
+            m: Mutex::new(()),
+            cv: std::sync::Condvar::new(),
+        }
+    }
+    fn abort(&self) {
+        self.abort.store(true, Ordering::SeqCst);
+        let _g = self.m.lock().unwrap();
+        self.cv.notify_all();
+    }
+    /// false: the run was aborted (a worker died)
+    fn wait(&self) -> bool {
+        let g = self.gen.load(Ordering::SeqCst);
+        if self.count.fetch_add(1, Ordering::SeqCst) + 1 == self.n {
+            self.count.store(0, Ordering::SeqCst);
+            self.gen.fetch_add(1, Ordering::SeqCst);
+            let _g = self.m.lock().unwrap();
+            self.cv.notify_all();
+            return !self.abort.load(Ordering::SeqCst);
+        }
+        for _ in 0..4000 {
+            if self.gen.load(Ordering::SeqCst) != g {
+                return !self.abort.load(Ordering::SeqCst);
+            }
+            std::hint::spin_loop();
+        }
+        let mut guard = self.m.lock().unwrap();
+        while self.gen.load(Ordering::SeqCst) == g && !self.abort.load(Ordering::SeqCst) {
+            guard = self.cv.wait(guard).unwrap();
+        }
+        !self.abort.load(Ordering::SeqCst)
+    }
+}
+
+struct Shared {
+    a: Alloc,
+    /// lower bound of the live total: raised after a success, lowered before a free
+    lb: AtomicUsize,
+    bar: SpinBarrier,
+    succ: AtomicU64,
+    refu: AtomicU64,
+    stop: AtomicBool,
+    fails: Mutex<Vec<(String, String)>>,
+    plan: Vec<RoundSpec>,
+    rounds: u64,
+    t: usize,
+    f21_known: bool,
+}
+
+impl Shared {
+    fn fail(&self, sig: &str, detail: String) {
+        let mut g = self.fails.lock().unwrap();
+        if g.len() < 8 {
+            g.push((sig.to_string(), detail));
+        }
+    }
+}
+
+#[derive(Default)]
+struct ThreadTotals {
+    rounds: u64,
+    mixed_rounds: u64,
+    mixed_specs: BTreeSet<usize>,
+    all_ok_rounds: u64,
+    all_refused_rounds: u64,
+    succ: u64,
+    refu: u64,
+    hold_rounds: u64,
+    known_f21: u64,
+    known_example: Option<String>,
+    realloc_ok: u64,
+    realloc_refused: u64,
+    zeroed_ok: u64,
+}
+
+unsafe fn tag(p: *mut u8, size: usize, who: u8) {
+    for i in 0..size.min(TAG) {
+        *p.add(i) = pat(who, i);
+    }
+}
+unsafe fn tagged(p: *const u8, cap: usize, who: u8) -> bool {
+    (0..cap.min(TAG)).all(|i| *p.add(i) == pat(who, i))
+}
+
+fn worker(sh: &Shared, me: usize) -> ThreadTotals {
+    let mut tot = ThreadTotals::default();
+    let who = (me as u8).wrapping_mul(37).wrapping_add(11);
+    let mut mine: Vec<(*mut u8, usize)> = Vec::with_capacity(BURST);
+    let limit = T_LIMIT;
+    let release = |sh: &Shared, p: *mut u8, size: usize| {
+        if !unsafe { tagged(p, size, who) } {
+            sh.fail(
+                "block-contents-changed",
+                format!("thread {}: a live block of {} bytes lost its tag", me, size),
+            );
+        }
+        sh.lb.fetch_sub(size, Ordering::SeqCst);
+        unsafe { sh.a.dealloc(p, Layout::from_size_align_unchecked(size, ALIGN)) };
+    };
+    for r in 0..sh.rounds {
+        let si = (r as usize) % sh.plan.len();
+        let spec = &sh.plan[si];
+        let (s, kind) = (spec.sizes[me], spec.kinds[me]);
+        let l = Layout::from_size_align(s, ALIGN).unwrap();
+        let (mut ok, mut no) = (0u64, 0u64);
+        if !sh.bar.wait() {
+            break;
+        }
+        // ---- burst
+        for _ in 0..BURST {
+            let p = unsafe {
+                if kind == 1 {
+                    sh.a.alloc_zeroed(l)
+                } else {
+                    sh.a.alloc(l)
+                }
+            };
+            if p.is_null() {
+                no += 1;
+                continue;
+            }
+            ok += 1;
+            let v = sh.lb.fetch_add(s, Ordering::SeqCst) + s;
+            if v > limit {
+                sh.fail(
+                    "thread-live-over-limit",
+                    format!(
+                        "thread {} round {}: after a successful {} of {} bytes at least {} bytes are live, limit {}",
+                        me,
+                        r,
+                        if kind == 1 { "alloc_zeroed" } else { "alloc" },
+                        s,
+                        v,
+                        limit
+                    ),
+                );
+            }
+            if kind == 1 {
+                tot.zeroed_ok += 1;
+                if !(0..s.min(TAG)).all(|i| unsafe { *p.add(i) } == 0) {
+                    sh.fail("zeroed-not-zero", format!("thread {}: alloc_zeroed({}) not zero", me, s));
+                }
+            }
+            unsafe { tag(p, s, who) };
+            let mut blk = (p, s);
+            if kind >= 2 {
+                let new = if kind == 2 { s * 2 } else { (s / 2).max(1) };
+                sh.lb.fetch_sub(s, Ordering::SeqCst);
+                let q = unsafe { sh.a.realloc(p, l, new) };
+                if q.is_null() {
+                    no += 1;
+                    tot.realloc_refused += 1;
+                    let v = sh.lb.fetch_add(s, Ordering::SeqCst) + s;
+                    if v > limit {
+                        sh.fail(
+                            "thread-live-over-limit",
+                            format!("thread {} round {}: at least {} bytes live, limit {}", me, r, v, limit),
+                        );
+                    }
+                    if !unsafe { tagged(p, s, who) } {
+                        sh.fail(
+                            "refusal-clobbered-block",
+                            format!("thread {}: refused realloc {} -> {} damaged the block", me, s, new),
+                        );
+                    }
+                } else {
+                    ok += 1;
+                    tot.realloc_ok += 1;
+                    let v = sh.lb.fetch_add(new, Ordering::SeqCst) + new;
+                    if v > limit {
+                        sh.fail(
+                            "thread-live-over-limit",
+                            format!(
+                                "thread {} round {}: after a successful realloc {} -> {} at least {} bytes are live, limit {}",
+                                me, r, s, new, v, limit
+                            ),
+                        );
+                    }
+                    if !unsafe { tagged(q, s.min(new), who) } {
+                        sh.fail(
+                            "realloc-lost-contents",
+                            format!("thread {}: realloc {} -> {} lost the contents", me, s, new),
+                        );
+                    }
+                    unsafe { tag(q, new, who) };
+                    blk = (q, new);
+                }
+            }
+            if spec.hold {
+                mine.push(blk);
+            } else {
+                release(sh, blk.0, blk.1);
+            }
+        }
+        sh.succ.fetch_add(ok, Ordering::SeqCst);
+        sh.refu.fetch_add(no, Ordering::SeqCst);
+        // ---- quiescent point: nobody is inside the allocator
+        if !sh.bar.wait() {
+            break;
+        }
+        if me == 0 {
+            let live = sh.lb.load(Ordering::SeqCst);
+            if live > limit {
+                sh.fail(
+                    "thread-live-over-limit",
+                    format!("round {} ({} threads): {} bytes live at the quiescent point, limit {}", r, sh.t, live, limit),
+                );
+            }
+            let peak = sh.a.get_max();
+            if peak < live {
+                let has_realloc_up = spec.kinds.iter().any(|k| *k == 2);
+                let detail = format!(
+                    "round {} ({} threads): get_max() = {} < {} bytes live at the quiescent point (reset at the previous one)",
+                    r, sh.t, peak, live
+                );
+                if has_realloc_up && sh.f21_known {
+                    tot.known_f21 += 1;
+                    if tot.known_example.is_none() {
+                        tot.known_example = Some(detail);
+                    }
+                } else if has_realloc_up {
+                    sh.fail(SIG_F21, detail);
+                } else {
+                    sh.fail("thread-peak-below-usage", detail);
+                }
+            }
+            sh.a.reset_max();
+            let u = sh.a.get_max();
+            if u != live {
+                sh.fail(
+                    "thread-usage-mismatch",
+                    format!(
+                        "round {} ({} threads): usage read back as {} at the quiescent point, live blocks total {}",
+                        r, sh.t, u, live
+                    ),
+                );
+            }
+            let (k, n) = (sh.succ.swap(0, Ordering::SeqCst), sh.refu.swap(0, Ordering::SeqCst));
+            tot.rounds += 1;
+            tot.succ += k;
+            tot.refu += n;
+            if spec.hold {
+                tot.hold_rounds += 1;
+            }
+            if k > 0 && n > 0 {
+                tot.mixed_rounds += 1;
+                tot.mixed_specs.insert(si);
+            } else if k > 0 {
+                tot.all_ok_rounds += 1;
+            } else {
+                tot.all_refused_rounds += 1;
+            }
+            if !sh.fails.lock().unwrap().is_empty() {
+                sh.stop.store(true, Ordering::SeqCst);
+            }
+        }
+        if !sh.bar.wait() {
+            break;
+        }
+        // ---- free
+        for (p, size) in mine.drain(..) {
+            release(sh, p, size);
+        }
+        if sh.stop.load(Ordering::SeqCst) {
+            break;
+        }
+    }
+    for (p, size) in mine.drain(..) {
+        release(sh, p, size);
+    }
+    tot
+}
+
+/// one stress run with `t` threads; Err = (signature, detail) of the first failure
+fn thread_run(seed: u64, t: usize, rounds: u64, plan_len: usize, f21_known: bool, st: &mut Stats) -> Result<(), (String, String)> {
+    let plan = make_plan(seed, t, plan_len.max(1));
+    let sh = Arc::new(Shared {
+        a: Alloc::new(T_LIMIT),
+        lb: AtomicUsize::new(0),
+        bar: SpinBarrier::new(t),
+        succ: AtomicU64::new(0),
+        refu: AtomicU64::new(0),
+        stop: AtomicBool::new(false),
+        fails: Mutex::new(vec![]),
+        plan,
+        rounds,
+        t,
+        f21_known,
+    });
+    let mut hs = vec![];
+    for me in 0..t {
+        let sh = sh.clone();
+        hs.push(
+            std::thread::Builder::new()
+                .name(format!("c19-t{}", me))
+                .spawn(move || {
+                    let r = catch(|| worker(&sh, me));
+                    if r.is_err() {
+                        sh.bar.abort();
+                    }
+                    r
+                })
+                .expect("spawn"),
+        );
+    }
+    let mut panics = vec![];
+    let mut tot0 = None;
+    for (i, h) in hs.into_iter().enumerate() {
+        match h.join() {
+            Ok(Ok(t)) => {
+                if i == 0 {
+                    tot0 = Some(t)
+                }
+            }
+            Ok(Err(p)) => panics.push(p),
+            Err(_) => panics.push("worker died".into()),
+        }
+    }
+    if let Some(p) = panics.first() {
+        return Err((panic_signature(p), format!("{} threads: a worker panicked inside the allocator calls: {}", t, p)));
+    }
+    let tot = tot0.unwrap_or_default();
+    st.evals(tot.rounds);
+    st.class_n(&format!("thread_rounds_T{}", t), tot.rounds);
+    st.class_n("thread_rounds_mixed(some succeed, some refused)", tot.mixed_rounds);
+    st.class_n("thread_rounds_all_succeed", tot.all_ok_rounds);
+    st.class_n("thread_rounds_all_refused", tot.all_refused_rounds);
+    st.class_n("thread_rounds_hold(quiescent point with live blocks)", tot.hold_rounds);
+    st.class_n("thread_ops_succeeded", tot.succ);
+    st.class_n("thread_ops_refused", tot.refu);
+    for si in &tot.mixed_specs {
+        st.nontrivial(&("threads", t, &sh.plan[*si]));
+        st.nt_sample(|| json!({"threads": t, "limit": T_LIMIT, "burst": BURST, "round": &sh.plan[*si]}));
+    }
+    if tot.known_f21 > 0 {
+        for _ in 0..tot.known_f21 {
+            st.known(SIG_F21, &format!("threads: {}", tot.known_example.clone().unwrap_or_default()));
+        }
+    }
+    if let Some((sig, detail)) = sh.fails.lock().unwrap().first().cloned() {
+        return Err((sig, detail));
+    }
+    // after joining: everything was freed
+    let lb = sh.lb.load(Ordering::SeqCst);
+    sh.a.reset_max();
+    let u = sh.a.get_max();
+    if lb != 0 || u != 0 {
+        return Err((
+            "thread-final-usage-nonzero".into(),
+            format!("{} threads: after joining, usage reads back as {} (harness counter {}), expected 0", t, u, lb),
+        ));
+    }
+    Ok(())
+}
+
+fn thread_case(seed: u64, t: usize, rounds: u64, plan_len: usize) -> J {
+    json!({"threads": t, "rounds": rounds, "plan_len": plan_len, "seed": seed, "limit": T_LIMIT, "burst": BURST})
+}
+
+fn threads_phase(cx: &Cx, rep: &mut Report) {
+    let plan_len = cx.tier.pick(1024usize, 8192);
+    // 20_000 rounds in total (quick), 1_000_000 (thorough)
+    for (t, per_t) in [
+        (2usize, cx.tier.pick(8_000u64, 400_000)),
+        (4, cx.tier.pick(6_000, 300_000)),
+        (8, cx.tier.pick(4_000, 200_000)),
+        (16, cx.tier.pick(2_000, 100_000)),
+    ] {
+        let mut st = Stats::new();
+        let r = thread_run(cx.seed, t, per_t, plan_len, cx.is_known(SIG_F21), &mut st);
+        let mut viols = vec![];
+        if let Err((sig, detail)) = r {
+            viols.push(Violation {
+                phase: "threads".into(),
+                case: thread_case(cx.seed, t, per_t, plan_len),
+                detail: format!(
+                    "[{}] {} (schedule-dependent: the replay re-runs the same round plan, not the same interleaving)",
+                    sig, detail
+                ),
+            });
+        }
+        rep.absorb((st, viols));
+        rep.mark(cx, &format!("threads_T{}", t));
+    }
+}
+
+// ---------------------------------------------------------------------------
+// entry points
+// ---------------------------------------------------------------------------
+
+fn dedupe(v: Vec<Violation>) -> Vec<Violation> {
+    let mut best: std::collections::BTreeMap<(String, String), (usize, String, Violation)> = Default::default();
+    for x in v {
+        let sig = x
+            .detail
+            .strip_prefix('[')
+            .and_then(|d| d.split(']').next())
+            .unwrap_or("")
+            .to_string();
+        let text = x.case.to_string();
+        let key = (x.phase.clone(), sig);
+        let cand = (text.len(), text, x);
+        match best.get(&key) {
+            Some(b) if (b.0, &b.1) <= (cand.0, &cand.1) => {}
+            _ => {
+                best.insert(key, cand);
+            }
+        }
+    }
+    best.into_values().map(|(_, _, v)| v).collect()
+}
+
+pub fn run(cx: &Cx) -> Report {
+    let mut rep = Report::new(RULE);
+    rep.level = "exploration";
+    rep.assumptions = vec![
+        "Layout align fixed to 8; sizes >= 1 (a zero-size Layout is never passed: '0-ish' = 1)".into(),
+        "usage is observable only as reset_max()+get_max(), which also resets the peak: every sequence is run once with a read-back after every operation and once with read-backs only where the sequence has them (peak checked with get_max() after every operation in both)".into(),
+        "the property is one-directional about success: a refusal of a request that would have fit (realloc tests old+new<=limit; parent allocator failure) is counted in a class, not reported".into(),
+        "blocks larger than 8192 bytes are filled/verified at their first and last 256 bytes and every 65536th byte, smaller ones completely".into(),
+        "requests of >= 2^48 bytes are assumed to be refused by the system allocator (x86-64 user address space); used to exercise the parent-failure path with limit = usize::MAX".into(),
+        "thread phase samples schedules, it does not enumerate them; it is the only part that is not a deterministic function of VERIF_SEED (its round plan is, the interleaving is not)".into(),
+        "thread phase asserts only schedule-independent facts: a counter raised after each success and lowered before each free never exceeds the limit; at barrier-separated quiescent points usage read-back == sum of live blocks and get_max() >= that sum; after joining usage == 0".into(),
+        "exhaustive phase: distinct_nontrivial hashes at most 200000 sequences per worker thread; the full number is the class exhaustive_nontrivial_sequences (distinct by construction)".into(),
+    ];
+    *BEST_KNOWN.lock().unwrap() = None;
+
+    crate::regress::run(cx, &mut rep, &replay);
+    rep.mark(cx, "regress");
+
+    exhaustive(cx, &mut rep);
+    rep.exhaustive = false; // exhaustive only up to the stated depth and alphabet
+    rep.mark(cx, "exhaustive");
+
+    let cases = cx.tier.pick(40_000u64, 2_000_000);
+    let known = cx.known.clone();
+    rep.absorb(par_proptest(
+        cx,
+        "random",
+        cases,
+        case_strategy,
+        move || Env { known: known.clone() },
+        |env, case, st| check_random(env, case, st),
+        |case| serde_json::to_value(case).unwrap(),
+    ));
+    rep.mark(cx, "random");
+
+    threads_phase(cx, &mut rep);
+    rep.mark(cx, "threads");
+
+    // the shortest example of the known finding is the most useful one to print
+    if let Some((_, text)) = BEST_KNOWN.lock().unwrap().clone() {
+        if let Some(e) = rep.stats.known.get_mut(SIG_F21) {
+            e.1 = text;
+        }
+    }
+
+    // one violation per (phase, signature): the smallest case
+    rep.violations = dedupe(std::mem::take(&mut rep.violations));
+
+    // vacuity
+    let c = |k: &str| rep.stats.classes.get(k).copied().unwrap_or(0);
+    let mut why = vec![];
+    if c("ops_succeeded") == 0 {
+        why.push("no sequential operation succeeded");
+    }
+    if c("ops_refused") == 0 {
+        why.push("no sequential operation was refused");
+    }
+    if c("thread_ops_succeeded") == 0 || c("thread_ops_refused") == 0 {
+        why.push("thread phase: nothing succeeded or nothing was refused");
+    }
+    if c("thread_rounds_mixed(some succeed, some refused)") == 0 {
+        why.push("thread phase: no round in which some requests succeed and some are refused");
+    }
+    if c("parent_allocator_failure(alloc within limit, system allocator refused)") == 0 {
+        why.push("the parent-allocator failure path was never taken");
+    }
+    if c("realloc_up_ok") == 0 || c("realloc_down_ok") == 0 || c("realloc_refused") == 0 {
+        why.push("realloc up/down/refused not all exercised");
+    }
+    if !why.is_empty() && rep.violations.is_empty() && rep.inconclusive.is_none() {
+        rep.inconclusive = Some(format!("vacuous run: {}", why.join("; ")));
+    }
     rep
 }
 
-pub fn replay(_cx: &Cx, _phase: &str, _case: &J, _st: &mut Stats) -> CaseResult {
-    Err("not implemented".into())
+pub fn replay(cx: &Cx, phase: &str, case: &J, st: &mut Stats) -> CaseResult {
+    if phase == "threads" || case.get("threads").is_some() {
+        let t = case["threads"].as_u64().ok_or("bad case: threads")? as usize;
+        if !(1..=64).contains(&t) {
+            return Err("bad case: threads out of range".into());
+        }
+        let rounds = case["rounds"].as_u64().unwrap_or(5_000);
+        let plan_len = case["plan_len"].as_u64().unwrap_or(1024) as usize;
+        let seed = case["seed"].as_u64().unwrap_or(cx.seed);
+        return thread_run(seed, t, rounds, plan_len, cx.is_known(SIG_F21), st)
+            .map_err(|(sig, d)| format!("[{}] {}", sig, d));
+    }
+    // a sequence; "text"-less witness format: {"limit":..,"probe_every":..,"ops":[..]}
+    let c: Case = serde_json::from_value(case.clone()).map_err(|e| format!("bad case: {}", e))?;
+    let env = Env { known: cx.known.clone() };
+    let mut ct = Ctr::new();
+    let r = run_case(&env, &c, st, &mut ct).map(|_| ());
+    ct.flush(st);
+    r
 }
